@@ -79,8 +79,12 @@ Valid(L) ==
   /\ L.force # -1 => /\ ~IsOff(L, L.force) /\ ~HasCinit(L, L.force)
                      /\ "ptr" \notin KindsAt(L, L.force)
 
-Layouts == {L \in [n : 1..MaxLvl, mem : [Names -> MemOpts], dict : -1..(MaxLvl - 1), cinit : -1..(MaxLvl - 1),
-                   off : 0..MaxLvl, force : -1..(MaxLvl - 1)] : Valid(L)}
+\* (ranges are narrowed first: TLC enumerates the record set before it filters)
+OptR(o, n) == IF o \in Opts THEN -1..(n - 1) ELSE {-1}
+LayoutsN(n) == {L \in [n : {n}, mem : [Names -> {NoMem} \cup [lvl : 0..(n - 1), kind : Kinds]],
+                        dict : OptR("dict", n), cinit : OptR("cinit", n),
+                        off : IF "off" \in Opts THEN 0..n ELSE {0}, force : OptR("force", n)] : Valid(L)}
+Layouts == UNION {LayoutsN(n) : n \in 1..MaxLvl}
 Empty == [n |-> 1, mem |-> [x \in Names |-> NoMem], dict |-> -1, cinit |-> -1, off |-> 0, force |-> -1]
 
 ---------------------------------------------------------------------------
@@ -193,10 +197,11 @@ Meets(d, o) == \/ d = "n/a"
                \/ d \in {"same", "byname"} /\ o = "ok"
 
 SameOps == {"pickle", "copy", "deepcopy"}
-PairOK(L1, L2, inst) ==
-  /\ Meets(Demand(L1, L2, inst), Impl(L1, L2, inst, "pickle", 1))
-  /\ L1 = L2 => /\ \A op \in SameOps : Meets(Demand(L1, L1, inst), Impl(L1, L1, inst, op, 1))
-                /\ \A alg \in {2, 3} : Meets(Demand(L1, L1, inst), Impl(L1, L1, inst, "pickle", alg))
+PairX(L1, L2, inst) == Meets(Demand(L1, L2, inst), Impl(L1, L2, inst, "pickle", 1))
+PairSame(L, inst) == LET d == Demand(L, L, inst) IN
+                     d # "n/a" => /\ \A op \in SameOps : Meets(d, Impl(L, L, inst, op, 1))
+                                  /\ \A alg \in {2, 3} : Meets(d, Impl(L, L, inst, "pickle", alg))
+PairOK(L1, L2, inst) == IF L1 = L2 THEN PairSame(L1, inst) ELSE PairX(L1, L2, inst)
 
 ---------------------------------------------------------------------------
 VARIABLES cur, hist, vals, e, done
@@ -265,20 +270,24 @@ Spec == Init /\ [][Next]_vars
 CheckInsts == IF Mode = "sim" THEN {} ELSE Insts
 JustSnapped == Len(hist) > 0 /\ e = 0 /\ vals = <<>>
 ImplMeetsDemand ==
-  JustSnapped => LET Ln == hist[Len(hist)] IN
-                 \A i \in 1..Len(hist) : \A inst \in CheckInsts :
-                    PairOK(hist[i], Ln, inst) /\ PairOK(Ln, hist[i], inst)
+  JustSnapped => LET n == Len(hist) Ln == hist[n] IN
+                 \A inst \in CheckInsts :
+                    /\ (Mode # "pairs" \/ n = 1) => PairSame(Ln, inst)
+                    /\ \A i \in 1..(n - 1) : /\ PairX(hist[i], Ln, inst)
+                                             /\ Mode # "pairs" => PairX(Ln, hist[i], inst)   \* pairs: the reverse is another state
 ImplMeetsDemandVals ==
   done => \A i \in 1..MaxVer, j \in 1..MaxVer, k \in 1..NVals : PairOK(hist[i], hist[j], vals[k])
 
-(* a load that succeeds never gives a field another field's value (weaker, holds for every kind) *)
+(* a load that succeeds never gives a field another field's value (weaker: holds for every kind) *)
+Bad == {"misassign", "dictlost", "recursion"}
 NoMisassign ==
-  JustSnapped => LET Ln == hist[Len(hist)] IN
-                 \A i \in 1..Len(hist) : \A inst \in CheckInsts :
-                    /\ Impl(hist[i], Ln, inst, "pickle", 1) \notin {"misassign", "dictlost", "recursion"}
-                    /\ Impl(Ln, hist[i], inst, "pickle", 1) \notin {"misassign", "dictlost", "recursion"}
+  JustSnapped => LET n == Len(hist) Ln == hist[n] IN
+                 \A inst \in CheckInsts :
+                    /\ \A op \in SameOps : Impl(Ln, Ln, inst, op, 1) \notin Bad
+                    /\ \A i \in 1..(n - 1) : /\ Impl(hist[i], Ln, inst, "pickle", 1) \notin Bad
+                                             /\ Impl(Ln, hist[i], inst, "pickle", 1) \notin Bad
 
-(* vacuity: counted classes of pairs, reported at the end of a pairs run through TLCGet/TLCSet-free PrintT of leaves *)
+(* publication *)
 Case(i, j, k, op, alg) ==
   LET L1 == hist[i] L2 == hist[j] inst == vals[k]
       d == Demand(L1, L2, inst)
